@@ -204,6 +204,18 @@ CHECKS = {
              "operations are finite-domain symbolic. " + ENGINE_NOTE,
         technique="solver-based symbolic execution of the real code (z3); finite-domain solver choices for characters and call sequences",
     ),
+    "C12": dict(
+        category="model_checking",
+        text="The real service runs twice on one path -- on a problem with one symbolic quantity and on its transformed twin -- and the "
+             "records (Qh, Qc, Qr, per-utility duties, pinch temperatures) are compared as terms by z3: stream permutation, zone renaming and "
+             "reordering, stream split at a symbolic intermediate temperature, parallel split, translation by a symbolic shift (pinches move by "
+             "the shift), mirroring of the temperature axis with hot <-> cold (Qh <-> Qc, pinches mirrored and swapped).",
+        design_ref="5/C12",
+        note="Templates of 2-3 streams in 1-2 zones with default utilities. Uniform duty scaling is NOT covered (absolute tolerances make "
+             "sub-tolerance residual bands scale-dependent; reals-model counterexamples there are not replayable on the 1e-6 K lattice); graph "
+             "data equality is not compared. " + ENGINE_NOTE,
+        technique="solver-based relational (twin-run) symbolic execution of the real service (z3)",
+    ),
 }
 
 NOT_YET = {}
